@@ -572,6 +572,26 @@ func singleStore(a *ssa.Alloc) *ssa.Store {
 		case *ssa.UnOp:
 		case *ssa.DebugRef:
 		case *ssa.Slice:
+		case *ssa.MakeClosure:
+			// captured by reference: fine if the closure only reads it
+			fn, ok := x.Fn.(*ssa.Function)
+			if !ok {
+				return nil
+			}
+			for i, b := range x.Bindings {
+				if b != ssa.Value(a) || i >= len(fn.FreeVars) {
+					continue
+				}
+				if rr := fn.FreeVars[i].Referrers(); rr != nil {
+					for _, u := range *rr {
+						switch u.(type) {
+						case *ssa.UnOp, *ssa.DebugRef:
+						default:
+							return nil
+						}
+					}
+				}
+			}
 		case *ssa.FieldAddr:
 			// read-only field access of a struct local
 			if rr := x.Referrers(); rr != nil {
